@@ -167,17 +167,17 @@ def section7():
         rows.append(m)
     out = ['', '---------------------------------------------------------------------------', '',
            '## 7. Seeded changes: which check catches which change', '',
-           wrap('Eight rounds (A/B ... O/P), two changes per property per round (318 changes).  Each change was written by a fresh sub-agent that '
+           wrap('Nine rounds (A/B ... Q/R; the ninth over 13 properties), two changes per property per round (344 changes).  Each change was written by a fresh sub-agent that '
                 'saw only the text of one property, the summaries of the earlier changes for it (from round 2 on, so as not to '
                 'repeat them) and its own scratch worktree of /repo - nothing from /verif - with the brief: break the property, keep '
                 'the library importable and the test suite result unchanged (14 failed, 241 passed), need something specific to '
                 'manifest.  I confirmed each demonstration and ran the property\'s check from a scratch copy of /verif against the '
                 'patched tree (`tools/seeded_eval.py`: rounds 1-4 on /repo itself, patched and reverted, quick tier then thorough if '
-                'quick passed; rounds 5 to 8 and the final re-evaluation of everything on private copies of the repository, four side by side, quick tier).  None '
+                'quick passed; rounds 5 to 9 and the final re-evaluation of everything on private copies of the repository, four side by side, quick tier).  None '
                 'of these patches is committed in /repo.  `seeded/<id>-<letter>/` holds patch.diff, demonstration.py and meta.json: '
                 '`runs` is the final outcome, `earlier_runs` the outcome with the checks as they stood before the change was '
-                'used to strengthen them.  Every round found gaps (9, 15, 15, 13, 14, 6, 21 and 17 misses of about 40; in rounds 4 to 6 part of the gaps had already '
-                'been closed from the agents\' summaries before the evaluation, in rounds 7 and 8 nothing was); each was in a '
+                'used to strengthen them.  Every round found gaps (9, 15, 15, 13, 14, 6, 21, 17 misses of about 40 and 11 of 26; in rounds 4 to 6 part of the gaps had already '
+                'been closed from the agents\' summaries before the evaluation, in rounds 7 to 9 nothing was); each was in a '
                 'generator or an oracle, never in a theorem, and the checks were strengthened, never loosened (the narrative is '
                 'below the table).  The table shows the final outcome.'), '',
            '| change | what it does | manifests when | caught by | tier | signatures |',
